@@ -24,6 +24,7 @@
 # kcd-files are the can-matrix-definitions of the kayak
 # (http://kayak.2codeornot2code.org/)
 
+import copy
 import decimal
 import os
 import re
@@ -119,7 +120,8 @@ def create_signal(signal, node_list, type_enums):
 def dump(dbs, f, **_options):
     # type: (typing.Mapping[str, canmatrix.CanMatrix], typing.IO, **typing.Any) -> None
     signal_type_enums = {}
-    cluster = canmatrix.cancluster.CanCluster(dbs)
+    # building the cluster merges senders/receivers of equal-named frames: do that on a copy
+    cluster = canmatrix.cancluster.CanCluster(copy.deepcopy(dbs))
     for name in cluster:  # type: str
         db = cluster[name]  # type: canmatrix.CanMatrix
         for (typename, define) in list(db.signal_defines.items()):
